@@ -1118,6 +1118,10 @@ def run(ctx):
             "all families but k1_tbf_auto run with jax_traceback_filtering=off (it only changes how tracebacks are trimmed and makes rejected traces 3x cheaper)",
             "int32 arrays have no NaN: the 'nan' filling uses -1 for them",
             "the per-example shapes computed by the harness are cross-checked against what the body actually received in every trace in which the body ran",
+            "arguments held concrete in a partially traced call are filled with arange (the three-filling comparison is made on the eager reference)",
+            "int / Cfg parameters that feed an f-string axis are never traced: an axis that interpolates the VALUE of a traced argument is value-dependent by construction, "
+            "the statement says nothing about it (don't-care, not generated)",
+            "functions with more than PART_SIZE planned evaluations are split by input index over several workers; the eager reference is then memoised per part",
         ],
         notes=["traced calls go through jax.eval_shape / jax.make_jaxpr on ShapeDtypeStructs: nothing is compiled; eager calls run real (tiny) computations on CPU"],
     )
